@@ -88,6 +88,16 @@ pub fn gen(rng: &mut Rng, tier: Tier) -> Scn {
             }
         }
     }
+    // read-only accessors called at arbitrary points (right after an add, before the publish, ...): no side effect
+    for _ in 0..rng.range(0, 3) {
+        let when = match rng.below(3) {
+            0 => When::AtUs(0),
+            1 => When::AfterPkt(rng.range(0, 60)),
+            _ => When::AtUs(rng.range(0, 400_000)),
+        };
+        let at = rng.below(s.ops.len() as u64 + 1) as usize;
+        s.ops.insert(at, TimedOp { when, op: Op::QueryAccessors });
+    }
     // max_transfer_count = 0 (the object is still transmitted once): it must be announced like any other
     if rng.chance(0.06) {
         let i = rng.below(s.objects.len() as u64) as usize;
